@@ -41,27 +41,27 @@ func writeEvidence(p *Prop, cs *coordState, tier string, seed uint64, wall float
 		runsPerHour = float64(cs.agg.Runs) / wall * 3600
 	}
 	cov := map[string]interface{}{
-		"evaluations":         cs.agg.Runs,
-		"distinct_nontrivial": len(cs.sigs),
-		"rule":                p.Rule,
-		"samples":             samples,
-		"nontrivial_runs":     cs.agg.NonTriv,
-		"runs_per_hour":       int64(runsPerHour),
-		"simulated_seconds":   float64(cs.agg.SimNs) / 1e9,
-		"scheduler_steps":     cs.agg.Steps,
-		"faults_fired":        cs.agg.Faults,
-		"probes_hit":          cs.agg.Probes,
-		"measured_maxima":     cs.agg.Maxes,
-		"faults_never_fired":  missingF,
-		"probes_never_hit":    missingP,
-		"known_finding_hits":  known,
-		"planned_runs":        cs.total,
-		"wall_capped":         cs.capped,
-		"worker_max_rss_kb":   cs.maxRSSkb,
-		"components_real":     p.Real,
-		"components_stub":     p.Stub,
+		"evaluations":               cs.agg.Runs,
+		"distinct_nontrivial":       len(cs.sigs),
+		"rule":                      p.Rule,
+		"samples":                   samples,
+		"nontrivial_runs":           cs.agg.NonTriv,
+		"runs_per_hour":             int64(runsPerHour),
+		"simulated_seconds":         float64(cs.agg.SimNs) / 1e9,
+		"scheduler_steps":           cs.agg.Steps,
+		"faults_fired":              cs.agg.Faults,
+		"probes_hit":                cs.agg.Probes,
+		"measured_maxima":           cs.agg.Maxes,
+		"faults_never_fired":        missingF,
+		"probes_never_hit":          missingP,
+		"known_finding_hits":        known,
+		"planned_runs":              cs.total,
+		"wall_capped":               cs.capped,
+		"worker_max_rss_kb":         cs.maxRSSkb,
+		"components_real":           p.Real,
+		"components_stub":           p.Stub,
 		"components_real_unfaulted": p.RealNoFault,
-		"exhaustive":          false,
+		"exhaustive":                false,
 	}
 	ev := map[string]interface{}{
 		"property_id": p.ID,
